@@ -6,6 +6,7 @@ use crate::probes::run_probe;
 use crate::scenarios::*;
 use crate::sim::*;
 use crate::stats::*;
+use crate::view::Book;
 use serde_json::{json, Value};
 
 fn fork(h: &History, label: &str) -> History {
@@ -17,10 +18,23 @@ fn fork(h: &History, label: &str) -> History {
 /// fees, fee refund, partial reject of each side, cancel, expire).
 pub fn marker_matrix(opts: &Opts, st: &mut Stats) -> Vec<(History, Vec<String>)> {
     let kinds = [MarkerKind::NoMarker, MarkerKind::Coin, MarkerKind::Restricted];
+    // the same again with marker answers whose OTHER fields are unusual (status, required attributes,
+    // supply, forced transfer ...): the mechanism depends on the marker type alone
+    let kinds2 = [MarkerKind::RestrictedGated, MarkerKind::CoinOdd, MarkerKind::RestrictedFinalized];
+    let mut combos = vec![];
+    for ks in [kinds, kinds2] {
+        for mb in ks {
+            for mc in ks {
+                for mq in ks {
+                    combos.push((mb, mc, mq));
+                }
+            }
+        }
+    }
     let mut out = vec![];
-    for mb in kinds {
-        for mc in kinds {
-            for mq in kinds {
+    {
+        {
+            for (mb, mc, mq) in combos {
                 let mut s = Script::new(&format!("W4:markers:{}{}{}", mb.short(), mc.short(), mq.short()), opts, st);
                 s.market(&Market { ask_fee: Some(("feea", "0.1")), bid_fee: Some(("feeb", "0.05")), markers: vec![("base", mb), ("conv0", mc), ("q0", mq)], ..Default::default() });
                 s.ask(1, "alice", "conv0", "20", 10);
@@ -381,6 +395,49 @@ pub fn version_matrix(opts: &Opts, st: &mut Stats) -> Vec<History> {
         st.count("C15", "large_book_migrations");
         if !h.found.is_empty() {
             found.push(h);
+        }
+    }
+    // large MIXED books: long runs of current-format bids between (and before / after) old-format ones
+    // (conversion must not depend on where in key order the old-format bids sit)
+    let layouts: Vec<(&str, usize, Box<dyn Fn(usize) -> bool>)> = vec![
+        ("3old-120cur-1old", 124, Box::new(|i| i < 3 || i == 123)),
+        ("100cur-30old", 130, Box::new(|i| i >= 100)),
+        ("old-every-33rd", 200, Box::new(|i| i % 33 == 32)),
+        ("blocks-of-32", 200, Box::new(|i| (i / 32) % 2 == 1)),
+        ("64cur-1old-64cur-1old", 130, Box::new(|i| i == 64 || i == 129)),
+        ("1old-256cur-1old", 258, Box::new(|i| i == 0 || i == 257)),
+        ("300cur-1old", 301, Box::new(|i| i == 300)),
+    ];
+    for (name, n, is_old) in layouts.iter() {
+        for v in ["0.19.0", "0.16.2"] {
+            let mut h = fork(&base, &format!("W4:versions:mixed-book:{}:{}", name, v));
+            for i in 0..*n {
+                let id = uuid(7000 + i as u64);
+                let fee = if i % 3 == 0 { Value::Null } else { json!({"amount": "9", "denom": "q0"}) };
+                let blk = json!({"height": 7, "time": "1571797419879305533"});
+                let rec = if is_old(i) {
+                    let one = json!({"action": {"Fill": {"base": {"amount": "1", "denom": "base"}, "fee": if i % 3 == 0 { Value::Null } else { json!({"amount": "1", "denom": "q0"}) }, "price": "10", "quote": {"amount": "10", "denom": "q0"}}}, "block_info": blk});
+                    // two equal fills in one block: identical consecutive entries
+                    json!({"base": {"amount": "9", "denom": "base"}, "events": [one.clone(), one], "fee": fee, "id": id, "owner": "bobby", "price": "10", "quote": {"amount": "90", "denom": "q0"}})
+                } else {
+                    json!({"base": {"amount": "9", "denom": "base"}, "accumulated_base": "2", "accumulated_quote": "20", "accumulated_fee": if i % 3 == 0 { "0" } else { "2" }, "fee": fee, "id": id, "owner": "carol", "price": "10", "quote": {"amount": "90", "denom": "q0"}})
+                };
+                h.w.store.data.insert(map_key("bid", &id), serde_json::to_vec(&rec).unwrap());
+            }
+            h.step(version_op(v), opts, st);
+            h.step(Op::Migrate { msg: json!({}) }, opts, st);
+            // every bid can now be read and exits with the same payout (old-format and native twins alike)
+            let book = Book::read(&h.w);
+            st.count("C15", "mixed_large_book_migrations");
+            if book.odd_bids.is_empty() {
+                for i in [0usize, 1, *n / 2, *n - 2, *n - 1] {
+                    let id = uuid(7000 + i as u64);
+                    h.step(Op::Exec { sender: if is_old(i) { "bobby".into() } else { "carol".into() }, funds: vec![], msg: json!({"cancel_bid": {"id": id}}) }, opts, st);
+                }
+            }
+            if !h.found.is_empty() {
+                found.push(h);
+            }
         }
     }
     // no version record at all
